@@ -172,8 +172,9 @@ def make_scenario(streams, quarantine=()):
     for t in tasks:
         if not st.is_leaf(t['name']):
             t['kw'].pop('milestone', None)
+            # (kept consistent, start <= end, both far in the past: an edit may turn the summary into a leaf later)
             if r.random() < 0.3:
-                t['kw']['start'] = iso(P + _dt.timedelta(days=r.randint(-30, 30)))
+                t['kw']['start'] = iso(P - _dt.timedelta(days=r.randint(4500, 4600)))
             if r.random() < 0.3:
                 t['kw']['end'] = iso(P - _dt.timedelta(days=r.randint(4000, 4400)))
     # links, keeping the expanded leaf graph acyclic
@@ -286,7 +287,7 @@ def make_scenario(streams, quarantine=()):
             if r.random() < 0.25:
                 users = [t['id'] for t in leaves if t['kw'].get('resource') == name]
                 if users:
-                    res_spec['task_limits'] = {str(i): r.choice([0.5, 1, 2, 3]) for i in r.sample(users, min(len(users), r.randint(1, 2)))}
+                    res_spec['task_limits'] = {str(i): r.choice([0.5, 1, 2, 3, 12, 16]) for i in r.sample(users, min(len(users), r.randint(1, 2)))}
             sc['resources'].append(res_spec)
         else:
             sc['resources'].append({'name': name, 'kind': 'real', 'cal': gen_calendar(r, base_day)})
@@ -365,7 +366,7 @@ def make_scenario(streams, quarantine=()):
         st3 = Struct(sc)
         edits = []
         for _ in range(ro.choice([1, 1, 2])):
-            k = ro.choice(['add_link', 'add_link', 'remove_link', 'set_kw', 'late_cycle', 'cal_edit', 'cal_edit'])
+            k = ro.choice(['add_link', 'add_link', 'remove_link', 'set_kw', 'set_kw', 'late_cycle', 'cal_edit', 'cal_edit', 'reparent', 'reparent'])
             if k == 'add_link' and n >= 2:
                 a, b = ro.sample(names, 2)
                 if a in st3.ancestors(b) or b in st3.ancestors(a) or [a, b] in sc['links']:
@@ -382,6 +383,23 @@ def make_scenario(streams, quarantine=()):
                 t = ro.choice(leaves)
                 edits.append({'op': 'mutate', 'm': {'kind': 'set_kw', 'task': t['name'], 'key': ro.choice(['estimate', 'spent']),
                                                    'value': ro.choice([0, 1, 2, 5, 0.5, None])}})
+            elif k == 'reparent' and n >= 2 and not edits:
+                # move a task below another one (a former leaf becomes a summary) or to the root level
+                a = ro.choice(names)
+                # (never below a milestone: the statements do not say what a milestone with children means)
+                tgt = ro.choice([x for x in names if x != a and x not in st3.descendants(a)
+                                 and not st3.spec[x]['kw'].get('milestone')] + [None])
+                if tgt is None and st3.parent.get(a) is None:
+                    continue
+                if tgt is not None:
+                    depth_ok = len(st3.ancestors(tgt)) + 1 + max([0] + [len(st3.ancestors(d)) - len(st3.ancestors(a)) for d in st3.descendants(a)]) <= 3
+                    if not depth_ok or tgt == st3.parent.get(a):
+                        continue
+                # the API itself rejects moves that put a task below something it is linked with
+                trial = _copy_tasks_reparent(sc, a, tgt)
+                if Struct(trial).expanded_cyclic():
+                    continue
+                edits.append({'op': 'mutate', 'm': {'kind': 'reparent', 'task': a, 'parent': tgt}})
             elif k == 'cal_edit' and supplied:
                 def has_direct(spec):
                     return isinstance(spec, dict) and (spec.get('t') == 'direct' or has_direct(spec.get('a')) or has_direct(spec.get('b')))
@@ -409,6 +427,16 @@ def make_scenario(streams, quarantine=()):
             ops.append({'op': 'calc', 'sched': 'A', 'fresh': ro.random() < 0.4, 'clock': clock})
     sc['ops'] = ops
     return sc
+
+
+def _copy_tasks_reparent(sc, a, tgt):
+    import copy
+    t2 = copy.deepcopy(sc['tasks'])
+    ent = [t for t in t2 if t['name'] == a][0]
+    t2.remove(ent)
+    ent['parent'] = tgt
+    t2.append(ent)
+    return dict(sc, tasks=t2)
 
 
 def direct_cycle(st):
